@@ -14,8 +14,7 @@
                   ALPH prefix needs VP8X and is written as ALPH + VP8 chunks
       fx_validate c14-mux-validate.diff       validate rejects negative / too
                   large offsets, canvases beyond the container limits, and still
-                  images whose offset is non-zero or whose canvas differs from
-                  the picture. *)
+                  images whose offset is non-zero. *)
 From Coq Require Import List ZArith Lia Bool.
 From Webp Require Import Base.Res Base.Bytes Riff.DemuxModel.
 Import ListNotations.
@@ -202,8 +201,7 @@ Definition validate_frame (fx : fixes) (animated : bool) (cw ch : Z) (f : mframe
    let endX := wrap64 (ox + fw) in
    let endY := wrap64 (oy + fh) in
    if ((fw >? 0) && (endX <=? ox)) || ((fh >? 0) && (endY <=? oy)) then false else
-   if (endX >? cw) || (endY >? ch) then false else
-   if fx_validate fx && negb animated && (negb (fw =? cw) || negb (fh =? ch)) then false else true).
+   if (endX >? cw) || (endY >? ch) then false else true).
 
 (** validate *)
 Definition validate (fx : fixes) (m : mstate) : Res unit :=
